@@ -78,13 +78,9 @@ theorem acquire_recount_exact (cfg : Cfg) (s : St) (p : Proc) (f : Name)
     simp only [hc, hfd, ↓reduceIte, diskSum, bc_avail, upd_same, hnames, sumReq_append, sumReq]
     omega
 
-/-! ### the hypotheses are satisfiable, the bound is reached, stale counters occur -/
-
-def cfg2 : Cfg := { total := 2, req := fun _ => 1, tolerant := true, notifyMissing := true }
-
-/-- two processes take one unit each (process 1 still believes 2 are free when it starts); a third
-    request does not fit although process 0 never heard of the second file. -/
-def evs2 : List Ev := [.acquireBegin 0 10, .acquireEnd 0, .acquireBegin 1 11, .acquireEnd 1, .acquireBegin 0 12]
+/-! ### the hypotheses are satisfiable, the bound is reached, stale counters occur
+    (`cfg2`, `evs2` are defined in `Proofs/FileTokens.lean`: total 2, two processes take one unit each,
+    a third request does not fit) -/
 
 example : allEnabled cfg2 (init cfg2) evs2 = true := by decide +kernel
 example : Reachable cfg2 (run cfg2 (init cfg2) evs2) := reachable_run cfg2 evs2 _ .init (by decide +kernel)
